@@ -4,6 +4,8 @@
 //   Q : Rational_Interval                                   (mpq_class, open bounds, SPECIAL infinities)
 //   Z : Interval<mpz_class, Z_Box_Interval_Info>            (integer bounds, closed only)
 //   D : Interval<double, Floating_Point_Box_Interval_Info>  (binary64, open bounds, value infinities)
+//   F : Interval<float, Floating_Point_Box_Interval_Info>   (binary32)
+//   L : Interval<long double, Floating_Point_Box_Interval_Info>  (x87 extended, 64-bit significand)
 // Journal (stdout), one event per line:   <id> <ty> <op> <I> <J> <R> <ok>
 // Bounds are printed exactly (doubles through mpq_class(double)).
 //
@@ -20,6 +22,8 @@ using namespace Parma_Polyhedra_Library;
 typedef Rational_Interval QI;
 typedef Interval<mpz_class, Z_Box_Interval_Info> ZI;
 typedef Interval<double, Floating_Point_Box_Interval_Info> DI;
+typedef Interval<float, Floating_Point_Box_Interval_Info> FI;
+typedef Interval<long double, Floating_Point_Box_Interval_Info> LI;
 
 // ---- a bound of a template: value (as a rational), open flag, or infinite
 struct TB { bool inf; mpq_class v; bool open; };
@@ -46,6 +50,37 @@ template <> struct Tr<DI> {
     if (std::isnan(v)) return "nan";
     if (std::isinf(v)) return v < 0 ? "-inf" : "+inf";
     mpq_class q(v); q.canonicalize(); return q.get_str();
+  }
+};
+
+template <> struct Tr<FI> {
+  static const char* name() { return "F"; }
+  static const bool can_open = true;
+  static float conv(const mpq_class& q) { return (float)q.get_d(); }
+  static std::string show(float v) {
+    if (std::isnan(v)) return "nan";
+    if (std::isinf(v)) return v < 0 ? "-inf" : "+inf";
+    mpq_class q((double)v); q.canonicalize(); return q.get_str();
+  }
+};
+
+template <> struct Tr<LI> {
+  static const char* name() { return "L"; }
+  static const bool can_open = true;
+  static long double conv(const mpq_class& q) { return (long double)q.get_d(); }
+  static std::string show(long double v) {
+    if (std::isnan(v)) return "nan";
+    if (std::isinf(v)) return v < 0 ? "-inf" : "+inf";
+    if (v == 0) return "0";
+    int e; long double m = frexpl(v, &e);      // v = m * 2^e, 1/2 <= |m| < 1
+    m = ldexpl(m, 64); e -= 64;                // m is an integer, |m| < 2^64 (x87 extended: 64-bit significand)
+    bool neg = m < 0; if (neg) m = -m;
+    unsigned long long u = (unsigned long long)m;
+    mpz_class z; mpz_import(z.get_mpz_t(), 1, 1, sizeof(u), 0, 0, &u);
+    if (neg) z = -z;
+    mpq_class q(z);
+    if (e >= 0) q <<= (unsigned long)e; else q >>= (unsigned long)(-e);
+    q.canonicalize(); return q.get_str();
   }
 };
 
@@ -213,6 +248,39 @@ template <> struct RandGen<DI> {
   }
 };
 
+template <> struct RandGen<FI> {
+  static float val(pplv::Rng& r) {
+    unsigned k = r.below(16);
+    float m = (float)r.range(-2000, 2000) / (float)r.range(1, 37);
+    switch (k) {
+      case 0: return 0.0f;
+      case 1: return m * 1e35f;
+      case 2: return m * 1e-35f;
+      case 3: return m * 1.4e-45f;   // subnormals
+      case 4: return std::ldexp(m, (int)r.range(-149, 110));
+      case 5: return (float)r.range(-5, 5);
+      case 6: return m < 0 ? -std::numeric_limits<float>::max() : std::numeric_limits<float>::max();
+      default: return m;
+    }
+  }
+};
+
+template <> struct RandGen<LI> {
+  static long double val(pplv::Rng& r) {
+    unsigned k = r.below(16);
+    long double m = (long double)(long long)r.next() / (long double)r.range(1, 37);   // 64 significant bits
+    switch (k) {
+      case 0: return 0.0L;
+      case 1: return ldexpl(m, (int)r.range(16000, 16300));
+      case 2: return ldexpl(m, (int)r.range(-16500, -16300));     // around the subnormal range
+      case 3: return ldexpl(m, (int)r.range(-16445 - 64, 16300 - 64));
+      case 4: return (long double)r.range(-5, 5);
+      case 5: return m < 0 ? -std::numeric_limits<long double>::max() : std::numeric_limits<long double>::max();
+      default: return ldexpl(m, -60 + (int)r.range(-8, 8));
+    }
+  }
+};
+
 template <typename ITV>
 ITV random_itv(pplv::Rng& r) {
   typedef typename ITV::boundary_type V;
@@ -273,7 +341,58 @@ void run_type(const std::vector<mpq_class>& vals, long seed, long nrandom, const
       run_wrap(o, big, 8, false, q8u);
     }
   }
+  // chains: a computed result (whatever bits it carries) is an operand of the next operation
+  for (long k = 0; k < nrandom / 2; ++k) {
+    ITV x = random_itv<ITV>(rng), y = random_itv<ITV>(rng), w = random_itv<ITV>(rng), t;
+    switch (rng.below(7)) {
+      case 0: t.add_assign(x, y); break;
+      case 1: t.sub_assign(x, y); break;
+      case 2: t.mul_assign(x, y); break;
+      case 3: t.div_assign(x, y); break;
+      case 4: t = x; t.join_assign(y); break;
+      case 5: t = x; t.difference_assign(y); break;
+      default: t.neg_assign(x); break;
+    }
+    if (t.is_empty() || !t.OK()) continue;
+    if (rng.chance(1, 2)) run_pair(o, t, w, true, false, false);
+    else run_pair(o, w, t, false, false, false);
+  }
   o.J.line(std::string("# ") + Tr<ITV>::name() + " events=" + std::to_string(o.n));
+}
+
+// ---- replay of one recorded event on the library as it is now:  --one "<ty> <op> <I> <J>"
+template <typename ITV>
+bool parse_itv(const std::string& t, ITV& out) {
+  typedef typename ITV::boundary_type V;
+  V dummy = Tr<ITV>::conv(mpq_class(0));
+  if (t == "E") { out = make_raw<ITV, V>(true, false, dummy, false, false, dummy, false); return true; }
+  if (t.size() < 5) return false;
+  bool lo_open = t[0] == '(', hi_open = t[t.size() - 1] == ')';
+  size_t c = t.find(',');
+  if (c == std::string::npos) return false;
+  std::string a = t.substr(1, c - 1), b = t.substr(c + 1, t.size() - c - 2);
+  bool lo_inf = a == "-inf", hi_inf = b == "+inf";
+  V lo = dummy, hi = dummy;
+  if (!lo_inf) { mpq_class q(a); q.canonicalize(); lo = Tr<ITV>::conv(q); }
+  if (!hi_inf) { mpq_class q(b); q.canonicalize(); hi = Tr<ITV>::conv(q); }
+  out = make_raw<ITV, V>(false, lo_inf, lo, lo_open, hi_inf, hi, hi_open);
+  return true;
+}
+
+template <typename ITV>
+int run_one(const std::string& op, const std::string& si, const std::string& sj) {
+  ITV x, y;
+  if (!parse_itv(si, x)) return 3;
+  if (sj == "-") y = x; else if (!parse_itv(sj, y)) return 3;
+  Out o(Tr<ITV>::name(), op.c_str());
+  if (op.compare(0, 5, "wrap:") == 0) {
+    unsigned w = (unsigned)atoi(op.c_str() + 5);
+    bool sgn = op[op.size() - 1] == 's';
+    run_wrap(o, x, w, sgn, y);
+  }
+  else
+    run_pair(o, x, y, true, false, true);
+  return 0;
 }
 
 // measure defects 3 and 12 on the library as it is now
@@ -298,10 +417,22 @@ static void probes() {
 int main(int argc, char** argv) {
   long seed = pplv::arg_long(argc, argv, "--seed", 1);
   long nrandom = pplv::arg_long(argc, argv, "--random", 300);
-  const char* types = pplv::arg_str(argc, argv, "--types", "QZD");
+  const char* types = pplv::arg_str(argc, argv, "--types", "QZDFL");
   const char* only = pplv::arg_str(argc, argv, "--only", "");
-  // batch 0: probes; 1: Q; 2: Z; 3: D  (each in its own child: a crash is attributed to the type)
-  return pplv::run_batches(0, 4, [&](long b) {
+  const char* one = pplv::arg_str(argc, argv, "--one", "");
+  if (*one) {
+    std::istringstream is(one);
+    std::string ty, op, si, sj;
+    is >> ty >> op >> si >> sj;
+    return pplv::run_batches(0, 2, [&](long b) {
+      if (b == 0) { probes(); return; }
+      int rc = ty == "Q" ? run_one<QI>(op, si, sj) : ty == "Z" ? run_one<ZI>(op, si, sj) : ty == "D" ? run_one<DI>(op, si, sj)
+             : ty == "F" ? run_one<FI>(op, si, sj) : ty == "L" ? run_one<LI>(op, si, sj) : 3;
+      if (rc) _exit(rc);
+    }, 60);
+  }
+  // batch 0: probes; 1: Q; 2: Z; 3: D; 4: F  (each in its own child: a crash is attributed to the type)
+  return pplv::run_batches(0, 6, [&](long b) {
     if (b == 0) { probes(); return; }
     std::vector<mpq_class> v;
     if (b == 1 && strchr(types, 'Q')) {
@@ -315,6 +446,15 @@ int main(int argc, char** argv) {
     if (b == 3 && strchr(types, 'D')) {
       v = {mpq_class(-3), mpq_class(-0.1), mpq_class(0), mpq_class(1.0 / 3.0), mpq_class(2)};
       run_type<DI>(v, seed, nrandom, only, false);
+    }
+    if (b == 4 && strchr(types, 'F')) {
+      v = {mpq_class(-3), mpq_class(-0.1f), mpq_class(0), mpq_class(1.0f / 3.0f), mpq_class(2)};
+      run_type<FI>(v, seed, nrandom, only, false);
+    }
+    if (b == 5 && strchr(types, 'L')) {
+      v = {mpq_class(-3), mpq_class(-0.1), mpq_class(0), mpq_class(1.0 / 3.0), mpq_class(2)};
+      // values near 2^±16000 make exact rational arithmetic slow on the Lean side: fewer random pairs
+      run_type<LI>(v, seed, nrandom / 25, only, false);
     }
   }, 280);
 }
